@@ -259,6 +259,10 @@ func checkC03(p *Prog, r *Report) {
 	hasBindingRule(p, r, "R7")
 	r.Rule("R11", "a binding is revoked with the entity that holds it: RemoveEntityByAddress drops exactly the entity it hands back to the clean-up (retain truth table; shared with C06-R12) — an entity dropped on the side keeps its bindings, and its write permission, past removal and reconnect")
 	applyRetain(p, r, "R11", "spine", "DeviceRemote", "RemoveEntityByAddress", retainSpec{Field: F("DeviceRemote.entities"), Required: map[string]string{"entity": "=$"}})
+	r.Rule("R12", "the bindings of a removed entity are revoked in the same loop iteration that removes it: the removal cascade (C06-R1/R2) applies the binding clean-up to the removed entity, once, only if it was found, dominated by the removal — a clean-up postponed behind the loop is skipped when a later entry ends the loop with an error")
+	entityRemovalCascade(p, r, "R12", "R12")
+	r.Rule("R13", "a refused write is answered whether or not it asked for an acknowledgement: the sender's result builder does not make the transmission depend on ackRequest (shared with C01-R17)")
+	c01ResultUnconditional(p, ib, r, "R13")
 	approvalCleanupRule(p, r, "R8")
 	r.Rule("R6", "a binding is revoked exactly for the client it was made for: RemoveBinding keeps ⇔ ¬(client address ∧ server feature equal); RemoveBindingsForEntity keeps ⇔ ¬(client device ∧ client entity equal) — a disappearing writer loses its own bindings and nobody else's (retain truth tables, shared with C09-R2/C10-R1)")
 	applyRetain(p, r, "R6", "spine", "BindingManager", "RemoveBinding", retainSpec{Field: F("BindingManager.bindingEntries"),
